@@ -415,6 +415,27 @@ def run_case(case):
         # b1 and b2 appear twice in total (once alone/padded, once combined): copies may be 2
         note(check_receive(arrivals, originals, obs, compose='repeats'), 'multi', dict(order=[len(a[3]) for a in arrivals]),
              'multi|%s' % ([len(a[3]) for a in arrivals],))
+        # random compositions of 2-5 messages (whole bundles, segments of one transfer) with or without zero padding behind them:
+        # a bundle message that is neither first nor last in its datagram must still be cut out exactly
+        for _rep in range(6):
+            wholes = [make_bundle(rng.choice([40, 55, 70, 90]), seq=30 + idx) for idx in range(4)]
+            b5 = make_bundle(120, seq=40)
+            segs5 = segments_of(b5, 21, [50, 50, 50])
+            originals2 = {('whole', idx): item for idx, item in enumerate(wholes)}
+            originals2[(PEER, 21)] = b5
+            pool = [([(('whole', idx), 0, len(item))], item) for idx, item in enumerate(wholes)] + \
+                   [([((PEER, 21), seg[0], seg[1])], seg[2]) for seg in segs5]
+            rng.shuffle(pool)
+            arrivals2 = []
+            while pool:
+                take = pool[:rng.randint(2, 5)]
+                del pool[:len(take)]
+                parts = [part for (plist, _d) in take for part in plist]
+                dgram = b''.join(item for (_p, item) in take) + b'\x00' * rng.choice([0, 0, 1, 16])
+                arrivals2.append((parts, 0, 0, dgram, PEER))
+                obs['multi_message_datagrams'] += 1
+            note(check_receive(arrivals2, originals2, obs), 'multi-random', dict(order=[len(a[3]) for a in arrivals2]),
+                 'multi2|%s' % ([len(a[3]) for a in arrivals2],))
     elif kind == 'loop':
         # what the real sender produced, fed to a real receiver in random order
         total = rng.choice([100, 300, 1000])
